@@ -77,6 +77,7 @@ pub struct Stats {
     pub projections: u64,
     pub compared: u64,
     pub interfering_sequences: u64,
+    pub tie_swaps: u64,
     pub states: BTreeSet<u64>,
     pub viol: SigBag,
 }
@@ -204,6 +205,38 @@ pub fn check_sequence(rt: &tokio::runtime::Runtime, c: &DriverCfg, seq: &[Rpc], 
         let mut interfered = false;
         for (j, (i, resp)) in mine.iter().enumerate() {
             st.compared += 1;
+            if *resp != &pr[j] && matches!(&seq[*i], Rpc::Search { .. } | Rpc::BulkSearch { .. }) {
+                // Which of several EXACTLY tied documents of the observer is returned is not one of
+                // the channels the statement lists (found / not-found, result counts, usage,
+                // foreign content): accept a difference that only permutes / swaps the observer's
+                // own documents at identical scores.
+                fn lists(v: &Value, out: &mut Vec<Vec<(String, String)>>) {
+                    match v {
+                        Value::Object(o) => {
+                            if let Some(Value::Array(rs)) = o.get("results") {
+                                out.push(rs.iter().map(|r| (r["score"].to_string(), r["metadata"].to_string())).collect());
+                            }
+                            for (k, x) in o {
+                                if k != "results" {
+                                    lists(x, out);
+                                }
+                            }
+                        }
+                        Value::Array(a) => a.iter().for_each(|x| lists(x, out)),
+                        _ => {}
+                    }
+                }
+                let (mut a, mut b) = (Vec::new(), Vec::new());
+                lists(resp, &mut a);
+                lists(&pr[j], &mut b);
+                let me = if obs == 0 { "[\"k\",\"a\"]" } else { "[\"k\",\"b\"]" };
+                let same_scores = a.len() == b.len() && a.iter().zip(&b).all(|(x, y)| x.len() == y.len() && x.iter().zip(y).all(|(p, q)| p.0 == q.0));
+                let all_mine = a.iter().all(|l| l.iter().all(|(_, m)| m.contains(me)));
+                if same_scores && all_mine {
+                    st.tie_swaps += 1;
+                    continue;
+                }
+            }
             if *resp != &pr[j] {
                 interfered = true;
                 // Search: are the observer's results merely a subset of what it gets alone (its own
@@ -289,6 +322,24 @@ pub fn worker(wi: usize, wn: usize, tier: &str) {
             }
         }
     }
+    // from a populated state: both tenants hold local ids 1 and 2 (identical vectors), drained
+    // to the cold tier, with one cached search each; then every sequence of depth 2 (thorough 3)
+    {
+        let a0 = alphabet_for(0);
+        let a1 = alphabet_for(1);
+        let prefix: Vec<Rpc> = vec![a0[0].clone(), a1[0].clone(), a0[2].clone(), a1[2].clone(), a0[22].clone(), a0[8].clone(), a1[8].clone()];
+        let pdepth = if tier == "thorough" { 3 } else { 2 };
+        let c = cfg("euclidean");
+        let mut memo: HashMap<String, (Vec<Value>, Vec<Value>)> = HashMap::new();
+        for (si, s) in sequences(alpha.len(), pdepth, &[]).into_iter().enumerate() {
+            if si % wn != wi {
+                continue;
+            }
+            let mut seq = prefix.clone();
+            seq.extend(s.iter().map(|&i| alpha[i].clone()));
+            check_sequence(&rt, &c, &seq, &mut memo, &mut st);
+        }
+    }
     // tenant index mapping: every sequence of up to 3 server starts over a family of API-key
     // sets (tenants with one or two keys, tenants added later): distinct tenants never share an
     // index and a tenant's index never changes across restarts
@@ -343,7 +394,7 @@ pub fn worker(wi: usize, wn: usize, tier: &str) {
     if s2 == 200 {
         st.viol.push(("C10|usage-served-without-requester".into(), json!({"status": s2})));
     }
-    vcore::par::worker_emit(&json!({"sequences":st.sequences,"calls":st.calls,"projections":st.projections,"compared":st.compared,"interfering":st.interfering_sequences,
+    vcore::par::worker_emit(&json!({"sequences":st.sequences,"calls":st.calls,"projections":st.projections,"compared":st.compared,"interfering":st.interfering_sequences,"tie_swaps":st.tie_swaps,
         "states":st.states.iter().collect::<Vec<_>>(),"violations":st.viol.to_json()}));
 }
 
@@ -393,7 +444,7 @@ pub fn run(tier: &str, replay: Option<&str>) -> i32 {
     let mut tot: BTreeMap<&str, u64> = BTreeMap::new();
     let mut states: BTreeSet<u64> = BTreeSet::new();
     for r in &res {
-        for k in ["sequences", "calls", "projections", "compared", "interfering"] {
+        for k in ["sequences", "calls", "projections", "compared", "interfering", "tie_swaps"] {
             *tot.entry(k).or_insert(0) += r[k].as_u64().unwrap_or(0);
         }
         for s in r["states"].as_array().unwrap() {
@@ -408,11 +459,13 @@ pub fn run(tier: &str, replay: Option<&str>) -> i32 {
     ev.set("traces_validated_against_impl", tot["sequences"]);
     ev.set("evaluations", tot["sequences"]);
     ev.set("distinct_nontrivial", tot["compared"]);
-    ev.set("rule", format!("all {n}^{depth} sequences over a {n}-letter alphabet (23 RPC forms x 2 tenants: Insert incl. spoofed reserved keys and namespace, BulkInsert, BulkLoadHnsw, Query, BulkQuery, Search with k 1/2, namespace, hostile filters naming the other tenant's reserved key / NOT / OR / legacy metadata_filters, BulkSearch, UpdateMetadata merge and replace-with-spoof, Delete, BatchDelete by ids and by filters that match everything or name the other tenant, FlushHotTier) on the real in-process handlers with auth on, colliding local ids {{1,2}} and identical vectors; oracle: for each tenant, its responses must be identical when the other tenant's requests are deleted from the sequence (projection run on a fresh server), plus no reserved key and no global id in any response, per-tenant /usage unchanged by the other tenant, scope=all refused to non-admin, request without tenant context refused; plus every sequence of <= 3 server starts over 8 API-key sets (multi-key tenants, tenants added later) through the real TenantIdMapper: indices injective and stable. states = distinct response vectors; non-trivial = observer responses compared against a projection"));
+    ev.set("rule", format!("all {n}^{depth} sequences over a {n}-letter alphabet (23 RPC forms x 2 tenants: Insert incl. spoofed reserved keys and namespace, BulkInsert, BulkLoadHnsw, Query, BulkQuery, Search with k 1/2, namespace, hostile filters naming the other tenant's reserved key / NOT / OR / legacy metadata_filters, BulkSearch, UpdateMetadata merge and replace-with-spoof, Delete, BatchDelete by ids and by filters that match everything or name the other tenant, FlushHotTier) on the real in-process handlers with auth on, colliding local ids {{1,2}} and identical vectors, from the empty server and (depth 2, thorough 3) from a populated one (both tenants hold ids 1,2, drained, one cached search each); oracle: for each tenant, its responses must be identical when the other tenant's requests are deleted from the sequence (projection run on a fresh server), plus no reserved key and no global id in any response, per-tenant /usage unchanged by the other tenant, scope=all refused to non-admin, request without tenant context refused; plus every sequence of <= 3 server starts over 8 API-key sets (multi-key tenants, tenants added later) through the real TenantIdMapper: indices injective and stable. states = distinct response vectors; non-trivial = observer responses compared against a projection"));
     ev.set("samples", json!([alphabet()[1], alphabet()[11], alphabet()[21]]));
     ev.set("exhaustive", true);
     ev.set("projection_runs", tot["projections"]);
     ev.set("sequences_with_interference", tot["interfering"]);
+    ev.set("search_responses_differing_only_in_which_exactly_tied_own_document_is_returned", tot["tie_swaps"]);
+    ev.assume("a search response that differs from the projection run only in WHICH of the observer's own exactly tied documents is returned (same scores, same counts, own content) is not interference: tie-breaking is not among the channels the statement lists");
     ev.assume("the API-key interceptor lives in main(); the in-process driver attaches the TenantContext the interceptor would attach; the interceptor itself, the persistent tenant map and the restart are exercised by the server-level slice (real binary, auth on): {no key, unknown, disabled, empty, Bearer unknown} x 9 RPCs => UNAUTHENTICATED; two tenants (one with two keys) with identical local ids and vectors see only their own documents through Query / BulkQuery / Search before and after two restarts, with a tenant added in between");
     ev.assume("search latency, execution path and the flush count (process-wide aggregates) are not compared");
     // server-level slice through the real binary (auth interceptor, tenant map, start-up recount)
